@@ -86,12 +86,12 @@ def walk(args):
     for tid, h, w, b, seed, steps in args:
         random.seed(seed)
         rng = random.Random(seed * 31 + 7)
-        if seed % 3 == 2:
+        if seed % 3 == 2 and tid >= 0:
             out += restart_walk(tid, h, w, b, seed, steps, rng)
             continue
         bld = mk_builder(h, w, b, unset=seed % 16)
         try:
-            cur = _initial(bld)
+            cur = _initial(bld, limit=4 if tid == -2 else 10)
         except Exception as e:  # noqa
             out.append({"t": tid, "h": h, "w": w, "bnd": b, "before": [], "updates": [], "status": "exc", "exc": "initial:" + type(e).__name__})
             continue
@@ -213,6 +213,12 @@ def run(tier, seed):
     for i, (h, w) in enumerate([(3, 16), (2, 17), (17, 2), (2, 16)] * (1 if tier == "quick" else 6)):
         b = {"minB": 1, "maxB": 3 + i % 2, "minS": 1, "maxS": h * w}
         wj.append((-1, h, w, b, seed * 7919 + 5000 + i, 40 if tier == "quick" else 120))
+    for i, (h, w, b) in enumerate([(3, 3, {"minB": 3, "maxB": 3, "minS": 3, "maxS": 5}),
+                                   (4, 4, {"minB": 8, "maxB": 8, "minS": 1, "maxS": 2}),
+                                   (6, 6, {"minB": 18, "maxB": 18, "minS": 1, "maxS": 2}),
+                                   (2, 4, {"minB": 2, "maxB": 2, "minS": 4, "maxS": 4}),
+                                   (3, 4, {"minB": 4, "maxB": 4, "minS": 3, "maxS": 3})] * (2 if tier == "quick" else 8)):
+        wj.append((-2, h, w, b, seed * 7919 + 9000 + i, 3))
     with RobustPool(NPROC) as pool:
         wouts = pool.map(walk, chunks(wj, NPROC * 2))
     wrecs = [x for o in wouts for x in o]
